@@ -23,6 +23,16 @@ Definition agree2 (ops : list op) (om ol : list obs) : bool :=
 (* the usual case: both real backends returned the same observations *)
 Definition agree (ops : list op) (o : list obs) : bool := agree2 ops o o.
 
+(* byte strings in the case files are single hexadecimal numerals: a leading 1 followed by
+   two hex digits per byte (parsing one numeral is much cheaper for Coq's front end than a
+   list of numerals); [b] decodes them *)
+Fixpoint dec (fuel : nat) (n : N) (acc : bytes) : bytes :=
+  match fuel with
+  | O => acc
+  | S f => if (n <=? 1)%N then acc else dec f (n / 256)%N ((n mod 256)%N :: acc)
+  end.
+Definition b (n : N) : bytes := dec (N.to_nat (N.size n)) n [].
+
 (* short names for the case files *)
 Notation g := Get (only parsing).
 Notation p := (Put false) (only parsing).
@@ -42,3 +52,6 @@ Notation oI := OIter (only parsing).
 Notation oP := OPanic (only parsing).
 Notation N_ := None (only parsing).
 Notation S_ := Some (only parsing).
+
+Example b_decodes : b 0x161ff00 = [97; 255; 0]%N /\ b 0x1 = [] /\ b 0x100 = [0]%N.
+Proof. vm_compute. repeat split. Qed.
